@@ -155,3 +155,32 @@ class CliStrR4(ResourceBase):
 
 SERVER_STR = [SrvStrR0, SrvStrR1, SrvStrR2, SrvStrR3, SrvStrR4]
 CLIENT_STR = [CliStrR0, CliStrR1, CliStrR2, CliStrR3, CliStrR4]
+
+
+# --- resources that name the SAME message class twice (string annotations) -----------------------------
+class SrvStrDup(ResourceBase):
+    @server_event
+    def first_a(self, client, seqnum: SeqNum, msg: VpC20MsgA):
+        self._rec("first_a", (client, seqnum, msg))
+
+    @server_event
+    def second_a(self, client, seqnum: SeqNum, msg: VpC20MsgA):
+        self._rec("second_a", (client, seqnum, msg))
+
+    @server_event
+    def on_b(self, client, seqnum: SeqNum, msg: VpC20MsgB):
+        self._rec("on_b", (client, seqnum, msg))
+
+
+class CliStrDup(ResourceBase):
+    @client_event
+    def first_a(self, seqnum: SeqNum, msg: VpC20MsgA):
+        self._rec("first_a", (seqnum, msg))
+
+    @client_event
+    def second_a(self, seqnum: SeqNum, msg: VpC20MsgA):
+        self._rec("second_a", (seqnum, msg))
+
+    @client_event
+    def on_b(self, seqnum: SeqNum, msg: VpC20MsgB):
+        self._rec("on_b", (seqnum, msg))
